@@ -345,11 +345,46 @@ def run(chk):
     coll("m.fa", [], [("m", vmap([("fa", vi(7))]))], [("fa", "const i1")], "OK i7", "field named like a bound function")
     coll("m.fa()", [], [("m", vmap([("a", vi(7))]))], [("fa", "const i1")], "OK i1", "bound method when no such field")
     coll("m.a", [], [("m", vmap([("a", vi(7))])), ("a", vi(1))], [("a", "const i2")], "OK i7", "field vs variable and function of that name")
+    # the same order in every position an identifier can stand in (operand, element, map value, macro body and range,
+    # call / method / constructor argument of run-time calls, f-string segment, condition branch, has, coalesce, match):
+    # whatever else is bound under a type's name, the type wins; a variable wins over a program
+    POS = ["%s", "[%s][0]", "{'k': %s}.k", "[1].map(e, %s)[0]", "[%s].map(e, e)[0]", "fa(%s)", "'a'.fa(%s)", "fargs(1, %s)[1]",
+           "[fa(%s)][0]", "f'{%s}'", "true ? %s : 1", "coalesce(%s)", "string(has(%s))", "dyn(%s)", "type(%s)", "[1].map(e, fa(%s))[0]",
+           "match %s { case _ : 0 }", "match 1 { case _ : %s }", "fa(fa(%s))", "i0 == 0 ? fa(%s) : 0", "[fa(%s), 2].size()", "fthis(%s)",
+           "%s.fthis()"]
+    posuf = [("fa", "arg0"), ("fargs", "args"), ("fthis", "this")]
+    pos_groups = []
+    for tname in ["int", "string", "timestamp", "type", "null_type", "double"]:
+        for pt in POS:
+            start = len(col)
+            for vb_ in (False, True):
+                for pb in (False, True):
+                    binds = [("i0", vi(0))] + ([(tname, vi(5))] if vb_ else [])
+                    progs = [(tname, "6")] if pb else []
+                    col.append((evalsrc_case(pt % tname, progs=progs, binds=binds, ufuncs=posuf, std=False), "GROUP",
+                                "type name in position %s vs variable=%s program=%s" % (pt, vb_, pb)))
+            pos_groups.append((start, 4, "a type name resolves differently when a variable or program of that name is bound"))
+    for pt in POS:
+        for name, binds0, progs0, note in [("v", [("v", vi(5))], [("v", "6")], "variable over program")]:
+            start = len(col)
+            col.append((evalsrc_case(pt % name, progs=[], binds=[("i0", vi(0))] + binds0, ufuncs=posuf, std=False), "GROUP",
+                        "variable in position %s, no program" % pt))
+            col.append((evalsrc_case(pt % name, progs=progs0, binds=[("i0", vi(0))] + binds0, ufuncs=posuf, std=False), "GROUP",
+                        "variable in position %s, program of the same name" % pt))
+            pos_groups.append((start, 2, "a variable resolves differently when a program of that name is stored"))
     cimpl2, cmodel2 = tie(chk, "name collisions", [c for c, _, _ in col], labels=[n for _, _, n in col])
+    for start, cnt, what in pos_groups:
+        rs = [split_result(r)[:2] for r in cimpl2[start:start + cnt]]
+        for j in range(1, cnt):
+            if rs[j] != rs[0] and not any(is_dead(r) for r in cimpl2[start:start + cnt]):
+                chk.violation(what, dict(case=col[start + j][0], label=col[start + j][2], impl=cimpl2[start + j],
+                                         baseline_label=col[start][2], baseline=cimpl2[start]))
     for (c, exp, note), r in zip(col, cimpl2):
         if is_dead(r):
             continue
         k, payload, _ = split_result(r)
+        if exp == "GROUP":
+            continue
         if exp == "?type":
             ok = k == "OK" and payload.startswith("T")
         elif exp == "ERRANY":
